@@ -29,6 +29,7 @@ INT_TYPES = {
     "bool": (1, False), "char": (8, True), "signed char": (8, True), "unsigned char": (8, False),
     "short": (16, True), "unsigned short": (16, False), "int": (32, True), "unsigned int": (32, False),
     "long": (64, True), "unsigned long": (64, False), "long long": (64, True), "unsigned long long": (64, False),
+    "wchar_t": (32, True), "char8_t": (8, False), "char16_t": (16, False), "char32_t": (32, False),   # x86-64 Linux
 }
 
 
@@ -618,12 +619,17 @@ def exact_name(name):
 CCTYPE = ["isalnum", "isalpha", "isblank", "iscntrl", "isdigit", "isgraph", "islower", "isprint", "ispunct", "isspace",
           "isupper", "isxdigit", "tolower", "toupper"]
 CCTYPE_JOBS = [(f, "etl::" + f, "FunctionDecl", exact_name(f), None, ["fn:" + f]) for f in CCTYPE]
+CWCTYPE = ["iswalnum", "iswalpha", "iswblank", "iswcntrl", "iswdigit", "iswgraph", "iswlower", "iswprint", "iswpunct",
+           "iswspace", "iswupper", "iswxdigit", "towlower", "towupper"]
+CWCTYPE_JOBS = [(f, "etl::" + f, "FunctionDecl", exact_name(f), None, ["fn:" + f]) for f in CWCTYPE]
 
 
 if __name__ == "__main__":
     repo = sys.argv[1] if len(sys.argv) > 1 else "/repo"
     out = sys.argv[2] if len(sys.argv) > 2 else "/dev/stdout"
-    if len(sys.argv) > 3 and sys.argv[3] == "cctype":
+    if len(sys.argv) > 3 and sys.argv[3] == "cwctype":
+        info = translate(repo, out, CWCTYPE_JOBS, "#include <etl/cwctype.hpp>\n", "Tetl.C18.GenW", "include/etl/_cwctype")
+    elif len(sys.argv) > 3 and sys.argv[3] == "cctype":
         info = translate(repo, out, CCTYPE_JOBS, "#include <etl/cctype.hpp>\n", "Tetl.C18.Gen", "include/etl/_cctype")
     else:
         info = translate(repo, out)
